@@ -210,10 +210,11 @@ def c2s_records(rng, n):
                 if via < 0.6:
                     bv = BeatValues.from_str(text)
                 else:
-                    sf = SSCSimfile.blank()
+                    from simfile.sm import SMSimfile
+                    sf = SSCSimfile.blank() if rng.random() < 0.5 else SMSimfile.blank()
                     key = rng.choice(["bpms", "stops", "delays", "warps"])
-                    sf.bpms = "0=120"
-                    setattr(sf, key, text)
+                    sf["BPMS"] = "0=120"
+                    sf[key.upper()] = text          # (an SM simfile can carry DELAYS / WARPS keys too)
                     if key == "bpms" and not text.strip():
                         continue
                     bv = getattr(TimingData(sf), key)
